@@ -84,7 +84,7 @@ class C18(vlib.Spec):
         return [dict(c, k="compile") for c in P.gen_programs(rng, tier, n, corpus="C18")]
 
     def n_cases(self, tier):
-        return 240 if tier == "quick" else 2500
+        return 200 if tier == "quick" else 2500
 
     def to_coq(self, case, res):
         if not isinstance(res, dict) or "flat" not in res:
@@ -129,7 +129,7 @@ class C18(vlib.Spec):
                     marks[str(n["delay"])] = marks.get(str(n["delay"]), 0) + 1
         # negative controls: the checker must reject corrupted copies of real outputs
         terms, kinds = [], []
-        for g in parts[:30]:
+        for g in parts[:20]:
             for kind, m in mutants(g):
                 terms.append("wf_code ops_table %s" % P.g_graph(m))
                 kinds.append(kind)
